@@ -19,6 +19,9 @@ Ops:
   spread <placement>                           → number of distinct servers (`distinctServers`)
   holds <p2s> <peer> <share>                   → `T`/`F`: `share in p2s[peer]` (`Holds`)
   told <total> <nsrv> <readonly> <held>         → the selector state the ground truth prescribes (`toldState`), as `S:…`
+  rounds <total> <nsrv> <readonly> <held> round round …   → from `toldState`, the selector state and plan at every
+        get_share_placements() of the allocation loop; a round is `p:k,p:k,…` (`.` = nobody asked) with answer kinds
+        `o` ok, `n` no progress, `e` error, `t` timeout, `d` disconnected; output `peers|readonly|bad|plan` per plan, joined by `;`
   sel <cfg> <total> op op …                    → PeerSelector history: `a:P` add_peer, `s:P:N` add_peer_with_share,
         `r:P` mark_readonly_peer, `f:P` allocation failed or timed out (= demotion), `b:P` mark_bad_peer, `g` get_share_placements; one field per op joined by `;`
         (`-` None, `KeyError`, or the plan), then `S:<peers>|<readonly>|<bad>|<existing>` (state afterwards)
@@ -94,6 +97,18 @@ def showSelOut : SelOut → String
   | .keyError => "KeyError"
   | .plan p => showPlacement p
 
+def parseAnswer (t : String) : Option (Nat × Answer) :=
+  match t.splitOn ":" with
+  | [p, "o"] => do pure ((← p.toNat?), .ok)
+  | [p, "n"] => do pure ((← p.toNat?), .noProgress)
+  | [p, "e"] => do pure ((← p.toNat?), .error)
+  | [p, "t"] => do pure ((← p.toNat?), .timeout)
+  | [p, "d"] => do pure ((← p.toNat?), .disconnected)
+  | _ => none
+
+def parseRound (t : String) : Option (List (Nat × Answer)) :=
+  if t == "." then some [] else (t.splitOn ",").mapM parseAnswer
+
 def handle : List String → String
   | ["place", p, r, s, m] => match parseIds p, parseIds r, parseIds s, parseSetMap m with
     | some p, some r, some s, some m =>
@@ -130,6 +145,13 @@ def handle : List String → String
       let s := toldState total nsrv ro held
       s!"S:{showIds s.peers}|{showIds s.readonly}|{showIds s.bad}|{showSetMap s.existing}"
     | _, _, _, _ => "bad-op"
+  | "rounds" :: total :: nsrv :: ro :: held :: rounds =>
+    match total.toNat?, nsrv.toNat?, parseIds ro, parseSetMap held, rounds.mapM parseRound with
+    | some total, some nsrv, some ro, some held, some rounds =>
+      let s0 := toldState total nsrv ro held
+      ";".intercalate ((s0.roundStates rounds).map (fun s =>
+        s!"{showIds s.peers}|{showIds s.readonly}|{showIds s.bad}|{showPlacement (s.plan Cfg.fixed)}"))
+    | _, _, _, _, _ => "bad-op"
   | "sel" :: c :: total :: ops => match parseCfg c, total.toNat?, ops.mapM parseSelOp with
     | some c, some total, some ops =>
       let s0 := SelState.init total
